@@ -646,3 +646,22 @@ pub fn serve_lines<Q: DeserializeOwned, R: Serialize>(mut f: impl FnMut(Q) -> R)
     }
     0
 }
+
+/// Development aid (never used by `/verif/check`): with `VH_DEV_STRIDE=n` only every n-th generated
+/// case is executed, the run is marked non-exhaustive and says so in `caps_hit`. Lets the oracle of
+/// a deep tier be smoke-tested on an overloaded machine; it is not a check result.
+pub fn dev_stride_filter(all: &mut Vec<RawCase>, rep: &mut vhcore::Reporter) -> bool {
+    match std::env::var("VH_DEV_STRIDE").ok().and_then(|s| s.parse::<usize>().ok()) {
+        Some(n) if n > 1 => {
+            let total = all.len();
+            let mut k = 0usize;
+            all.retain(|_| {
+                k += 1;
+                (k - 1) % n == 0
+            });
+            rep.cap(&format!("DEVELOPMENT RUN: VH_DEV_STRIDE={n}: only {} of {total} generated cases executed — not a check result", all.len()));
+            true
+        }
+        _ => false,
+    }
+}
